@@ -73,6 +73,7 @@ func (e *Emitter) Close(statsPath string) {
 
 var withGenesis bool
 var queriesOn = true
+var restartsOn = true
 
 func jsonValid(s string) bool { return json.Valid([]byte(s)) }
 
@@ -94,6 +95,7 @@ func main() {
 	statsPath := fs.String("stats", "", "stats output")
 	fs.BoolVar(&withSigned, "signed", false, "msgs profile: also send real signed transactions through DeliverTx")
 	fs.BoolVar(&queriesOn, "queries", true, "interleave query records (the gRPC query servers answering on the current state)")
+	fs.BoolVar(&restartsOn, "restarts", true, "restart the chain from its own exported genesis now and then (whole-application export, fresh application, InitChain)")
 	fs.BoolVar(&withGenesis, "genesis", false, "round-trip the custom modules' genesis at the end of every history")
 	fs.Parse(os.Args[2:])
 	out := NewEmitter(*outPath)
